@@ -270,6 +270,70 @@ def check_reversal(idx, run):
               "without parentheses: `do i = m1+1, n, 3` gives "
               "MOD(n - m1 + 1, 3) instead of MOD(n - (m1 + 1), 3)",
               loc(mod, loop))
+    # every definition of the start offset is (hi - lo) mod step: the text
+    # form handed to the Fortran parser, or the same arithmetic done in Python
+    def text_of(expr):
+        # the value of a name assigned once in the method, else the expression
+        if isinstance(expr, ast.Name):
+            defs = [a.value for a in ast.walk(loop) if isinstance(a, ast.Assign)
+                    and ast.unparse(a.targets[0]) == expr.id]
+            if len(defs) == 1:
+                return defs[0]
+        return expr
+
+    def mod_form(value):
+        """True / False / None(unrecognised) for one definition of offset."""
+        if isinstance(value, ast.Constant) and value.value is None:
+            return True
+        found = None
+        todo = [value]
+        seen = 0
+        while todo and seen < 200:
+            cur = todo.pop()
+            seen += 1
+            for sub in ast.walk(cur):
+                if isinstance(sub, ast.Name) and sub is not cur:
+                    nxt = text_of(sub)
+                    if nxt is not sub:
+                        todo.append(nxt)
+                if isinstance(sub, ast.JoinedStr) and \
+                        "mod(" in ast.unparse(sub).lower():
+                    parts = ["{}" if isinstance(v, ast.FormattedValue)
+                             else str(v.value) for v in sub.values]
+                    shape = "".join(parts).replace(" ", "").lower()
+                    found = shape in ("mod({}-{},{})", "mod({}-({}),{})")
+                if isinstance(sub, ast.BinOp) and isinstance(sub.op, ast.Mod):
+                    left = sub.left
+                    for _ in range(6):
+                        if isinstance(left, ast.Call) and len(left.args) == 1:
+                            left = left.args[0]
+                        elif isinstance(left, ast.Name):
+                            nxt = text_of(left)
+                            if nxt is left:
+                                break
+                            left = nxt
+                        else:
+                            break
+                    inner = [b for b in ast.walk(left)
+                             if isinstance(b, ast.BinOp)]
+                    found = isinstance(left, ast.BinOp) and \
+                        isinstance(left.op, ast.Sub) and len(inner) == 1
+        return found
+    odefs = [a for a in ast.walk(loop) if isinstance(a, ast.Assign) and
+             ast.unparse(a.targets[0]) == "offset"]
+    run.floor("definitions of the reversed loop's start offset",
+              len(odefs), 2)
+    for odef in odefs:
+        verdict = mod_form(odef.value)
+        run.check("C19.R2", verdict is True, "AdjointVisitor.loop_node",
+                  f"start offset definition "
+                  f"#{odefs.index(odef) + 1} is (hi - lo) mod step",
+                  f"`{ast.unparse(odef)[:70]}` "
+                  f"{'is not' if verdict is False else 'could not be shown to be'}"
+                  f" (hi - lo) MOD step: for `do i = 1, 9, 2` the reversed "
+                  f"loop must start at 9 - MOD(9 - 1, 2) = 9; an offset "
+                  f"computed from the extent hi - lo + 1 starts it at 8 and "
+                  f"the adjoint visits 8, 6, 4, 2", loc(mod, odef))
     # a loop that does not execute has an adjoint that does not execute
     zfacts = ("IfBlock.create", "MAX", "trip_count", "zero_trip", "MIN(")
     run.check(
@@ -326,8 +390,52 @@ PREDICATES = [
     ('module:src/psyclone/psyad/utils.py', 'node_is_active', False),
 ]
 
+def check_harness_shapes(idx, run):
+    """The test harness declares each kernel argument with the bounds the
+    kernel declares: a dimension given as lower:upper is re-created from
+    both bounds on every path."""
+    mod = idx.module("src/psyclone/psyad/tl2ad.py")
+    funcs = [f for f in ast.walk(mod.tree) if isinstance(f, ast.FunctionDef)
+             and any(isinstance(c, ast.Attribute) and c.attr == "ArrayBounds"
+                     for c in ast.walk(f)) and "new_shape" in ast.unparse(f)]
+    if not funcs:
+        raise AnalysisError("tl2ad: the code that re-creates the shape of "
+                            "the harness arrays was not found")
+    count = 0
+    for func in funcs:
+        for branch in ast.walk(func):
+            if not (isinstance(branch, ast.If) and
+                    "ArrayBounds" in ast.unparse(branch.test) and
+                    "isinstance" in ast.unparse(branch.test)):
+                continue
+            for call in [c for st in branch.body for c in ast.walk(st)]:
+                if not (isinstance(call, ast.Call) and
+                        isinstance(call.func, ast.Attribute) and
+                        call.func.attr == "append" and
+                        ast.unparse(call.func.value) == "new_shape"):
+                    continue
+                count += 1
+                arg = call.args[0] if call.args else None
+                pair = isinstance(arg, ast.Call) and \
+                    ast.unparse(arg.func).endswith("ArrayBounds") and \
+                    len(arg.args) == 2 and \
+                    ast.unparse(arg.args[0]) != ast.unparse(arg.args[1])
+                run.check("C19.R7", pair, f"tl2ad.{func.name}",
+                          "a dimension declared lower:upper keeps both "
+                          "bounds in the harness",
+                          f"`{ast.unparse(call)[:60]}` declares a harness "
+                          f"array from one bound only: a kernel argument "
+                          f"a(0:n) is declared a(n) in the harness, one "
+                          f"element short, and the generated test fails "
+                          f"although the adjoint is right",
+                          loc(mod, call))
+    run.floor("explicit-bounds dimensions re-created for the harness",
+              count, 1)
+
+
 def check(idx, run):
     run.explanation = __doc__
+    check_harness_shapes(idx, run)
     from sa.guards import check_predicates
     check_predicates(idx, run, "C19.R6", PREDICATES)
     from sa.guards import check_guards
